@@ -37,6 +37,7 @@ class Q:
     engine: str = "chx"     # chx (CrossHair on the real code) | py (function returns a result dict itself)
     module: str = ""        # defaults to the property module
     what: str = ""          # one line for humans
+    split: int = 0          # E3: fix the first `split` scheduler decisions per sub-query (2^split sub-queries, run in parallel)
 
 
 def _run(cmd, env, timeout):
@@ -184,6 +185,23 @@ def process_query(q, known_open):
     return res
 
 
+def expand_splits(queries):
+    """A query with split=n becomes 2^n queries whose first n scheduler decisions are grid constants (params['prefix']);
+    the union of the sub-trees is the original tree (every choice vector starts with exactly one of the prefixes), and the
+    sub-queries run in parallel.  vf.cosched.Sched prepends the prefix to the solver-chosen vector."""
+    out = []
+    for q in queries:
+        if not q.split:
+            out.append(q)
+            continue
+        for v in range(2 ** q.split):
+            bits = [bool((v >> (q.split - 1 - i)) & 1) for i in range(q.split)]
+            tag = "".join("1" if b else "0" for b in bits)
+            out.append(dataclasses.replace(q, qid=f"{q.qid}/pfx{tag}", params=dict(q.params, prefix=bits), split=0,
+                                           what=q.what + f" [sub-tree: first {q.split} scheduling decisions = {tag}]"))
+    return out
+
+
 # ---------------------------------------------------------------- main
 def main(argv=None):
     import argparse
@@ -212,6 +230,7 @@ def main(argv=None):
     for q in queries:
         if not q.module:
             q.module = modname
+    queries = expand_splits(queries)
     if args.only:
         queries = [q for q in queries if args.only in q.qid]
     rnd = random.Random(seed)
